@@ -232,6 +232,8 @@ func RunLife(sc LifeScenario) (evs []Ev, inconclusive string) {
 	} else if sc.Directed == "rowpanic" {
 		s.AddSyncSink(mkSink("s1", "fast"))
 		s.AddSink(mkSink("a1", "fast"))
+	} else if sc.Directed == "syncgrace" {
+		s.AddSyncSink(mkSink("s1", "park"))
 	} else if sc.Directed == "stopgrace" {
 		s.AddSyncSink(mkSink("s1", "park"))
 		s.AddSink(mkSink("a1", "fast"))
@@ -306,6 +308,33 @@ func RunLife(sc LifeScenario) (evs []Ev, inconclusive string) {
 		case <-time.After(10 * time.Second):
 			log(Ev{"e": "deadlock", "q": atomic.AddInt64(&seq, 1)})
 		}
+	case "syncgrace":
+		// an EmitSync call sits in a synchronous sink that stays blocked beyond the grace period: Stop returns within its grace period
+		// all the same (and a second EmitSync is not queued behind the first)
+		doneSync := make(chan struct{})
+		go func() {
+			guard("EmitSync", func() { _, _ = s.EmitSync(row(1)) })
+			close(doneSync)
+		}()
+		select {
+		case <-entered:
+		case <-time.After(5 * time.Second):
+			return evs, "EmitSync did not reach the sink"
+		}
+		stopDone := make(chan struct{})
+		go func() { stop(1); close(stopDone) }()
+		select {
+		case <-stopDone:
+		case <-time.After(9 * time.Second): // Stop is stuck behind the blocked call: release it so that the scenario ends (stop.ret then reports > grace)
+		}
+		close(gate1)
+		<-doneSync
+		select {
+		case <-stopDone:
+		case <-time.After(10 * time.Second):
+			log(Ev{"e": "deadlock", "q": atomic.AddInt64(&seq, 1)})
+		}
+		time.Sleep(30 * time.Millisecond)
 	case "stopgrace":
 		// a synchronous sink blocks (a stuck downstream): Stop must still return within its grace period
 		for i := 1; i <= 6; i++ {
